@@ -190,7 +190,7 @@ func runC04(line string) string {
 				default:
 				}
 				bg.send(req, nil)
-				v, err := bg.recv(time.Duration(float64(4*time.Second) * loadFactor))
+				v, err := bg.recvPatient(4 * time.Second)
 				if err != nil {
 					bgBad = " BG-TIMEOUT"
 					return
@@ -258,7 +258,7 @@ func runC04(line string) string {
 				afterFailover := before
 				for try := 0; try < 40 && !ok; try++ {
 					sc.send(bulkArr([]byte("exists"), pk).bytes(), nil)
-					rp, err := sc.recv(time.Duration(float64(4*time.Second) * loadFactor))
+					rp, err := sc.recvPatient(4 * time.Second)
 					if err == nil && rp.t != '-' {
 						ok = true
 						break
@@ -307,7 +307,7 @@ func runC04(line string) string {
 			cl.mu.Unlock()
 			sc.send(buf, nil)
 			for j := 0; j < cnt; j++ {
-				r, err := sc.recv(time.Duration(float64(4*time.Second) * loadFactor))
+				r, err := sc.recvPatient(4 * time.Second)
 				if err != nil {
 					replies = append(replies, "TIMEOUT")
 					break
@@ -344,7 +344,7 @@ func runC04(line string) string {
 			cl.dropNextExec = fs[0] == "qx"
 			cl.mu.Unlock()
 			sc.send(v.bytes(), nil)
-			r, err := sc.recv(time.Duration(float64(4*time.Second) * loadFactor))
+			r, err := sc.recvPatient(4 * time.Second)
 			cl.mu.Lock()
 			cl.dropNextExec = false
 			if cl.onAsk != nil {
@@ -389,7 +389,7 @@ func runC04(line string) string {
 					}
 					for try := 0; try < 40; try++ {
 						sc.send(bulkArr([]byte("exists"), pk).bytes(), nil)
-						rp, perr := sc.recv(time.Duration(float64(4*time.Second) * loadFactor))
+						rp, perr := sc.recvPatient(4 * time.Second)
 						if perr == nil && rp.t != '-' {
 							break
 						}
@@ -623,7 +623,7 @@ func init() {
 				}
 			}
 			for j, nj := 0, 3+r.intn(25); j < nj; j++ {
-				switch r.intn(11) {
+				switch r.intn(12) {
 				case 10:
 					// a finalisation window on a key that is then used: migrate its slot, finish with lag, requests
 					k := keys[r.intn(len(keys))]
@@ -666,6 +666,20 @@ func init() {
 							items = append(items, "w")
 						}
 					}
+				case 11:
+					// a half-migrated slot with two keys of one hash tag: one has moved, the other has not; each is read and
+					// written where it is
+					if cps {
+						continue
+					}
+					ta, tb := []byte("{t}a"), []byte("{t}b")
+					sl := slotOf(ta)
+					items = append(items, "q "+bulkArr([]byte("set"), ta, []byte("va"+strconv.Itoa(r.intn(9)))).String(),
+						"q "+bulkArr([]byte("set"), tb, []byte("vb"+strconv.Itoa(r.intn(9)))).String(),
+						fmt.Sprintf("mb %d %d", sl, r.intn(n)), "mk "+hex.EncodeToString(ta),
+						"q "+bulkArr([]byte("get"), ta).String(), "q "+bulkArr([]byte("get"), tb).String(),
+						"q "+bulkArr([]byte("append"), tb, []byte("x")).String(), "q "+bulkArr([]byte("get"), tb).String(),
+						"q "+bulkArr([]byte("get"), ta).String())
 				case 0, 1, 2:
 					items = append(items, step(-1))
 				case 3:
@@ -678,7 +692,11 @@ func init() {
 					}
 				default:
 					if r.chance(1, 6) {
-						items = append(items, fmt.Sprintf("p %d %s", 3+r.intn(12), hex.EncodeToString([]byte("ctr"+strconv.Itoa(r.intn(3))))))
+						cnt := 3 + r.intn(12)
+						if r.chance(1, 8) {
+							cnt = 1200 + r.intn(600) // more than a backend connection's request queue holds: redirected ones wait for room
+						}
+						items = append(items, fmt.Sprintf("p %d %s", cnt, hex.EncodeToString([]byte("ctr"+strconv.Itoa(r.intn(3))))))
 						continue
 					}
 					q := "q " + req()
